@@ -64,12 +64,20 @@ Section Final.
     destruct (types_validate_system b58 (tx_ci t)) as [[]|?|?]; try discriminate E. reflexivity.
   Qed.
 
-  (** executeTx on a governance transaction never panics (it validates first) *)
+  (** Tx.Validate rejects every transaction type that has no case in executeTx's dispatch *)
+  Lemma tx_validate_type : forall e t u, tx_validate e t = Ok u -> tx_type t <> TOther.
+  Proof.
+    intros e t u. unfold Model.tx_validate.
+    repeat match goal with |- (if ?c then _ else _) = _ -> _ => destruct c; [intro X; discriminate X|] end.
+    intros E Ht. rewrite Ht in E. discriminate E.
+  Qed.
+
+  (** executeTx never panics (it validates first): governance execution, and the type dispatch *)
   Theorem exec_gov_np : forall e t st, state_wf st = true -> np (exec_gov e t st).
   Proof.
     intros e t st H. destruct (state_wf_parts _ H) as (H1 & H2 & H3). unfold Model.exec_gov.
     apply np_bind; [apply tx_validate_total|]. intros u Hv.
-    destruct (tx_type t) eqn:Ht; try reflexivity.
+    destruct (tx_type t) eqn:Ht; try reflexivity; [| exfalso; eapply tx_validate_type; eauto].
     destruct (str_eqb (tx_recipient t) c_aergo_system) eqn:Hs.
     { eapply system_exec_total; eauto using tx_validate_gov_system. }
     destruct (str_eqb (tx_recipient t) c_aergo_name).
